@@ -43,7 +43,7 @@ OMIT = object()
 
 
 def run_estimates(el, feed, call, client=None, want_client=False, shared_model_parameters=None,
-                  inputs_from_storage=False):
+                  inputs_from_storage=False, own_feed=False):
     """Run ModelClient.get_estimates on deep copies of everything.  Returns (results|None, exc|None[, client]).
 
     shared_model_parameters: pass the caller's OWN dict object as model_parameters (no copy) - callers reuse one
@@ -68,7 +68,7 @@ def run_estimates(el, feed, call, client=None, want_client=False, shared_model_p
     res, exc = None, None
     try:
         res = client.get_estimates(
-            feed_argument(feed, call),
+            feed if own_feed else feed_argument(feed, call),  # own_feed: the caller's frame itself, not a copy
             el.election_id,
             el.office,
             call["estimands"],
